@@ -9,11 +9,10 @@ SPEC = {
                      "RunMessageHandlers and the RunMessageHandlers call site of ParseMessages by hand over an explicit heap "
                      "(object = PGN, pNMEA2000, pNext; per-bus MsgHandlers head); pointer walks carry fuel and a dead-object "
                      "dereference is a fault, both proved impossible",
-                     "which received frame completes a message (SetN2kCANBufMsg / TestHandleTPMessage) is NOT modelled here "
-                     "(C02/C10): the model takes the outcome as input; the harness exercises the real receive path for single "
-                     "frames, one-frame fast packets, lone TP.CM/TP.DT frames, a BAM transfer and multi-frame fast packets "
-                     "(intact and damaged: missing/duplicate/swapped frame, wrong counter or sequence id, restart), judged by a "
-                     "strict in-order reference receiver written from the fast-packet format"],
+                     "the receive path is the C02 model N2k/Model/Rx.lean, imported unchanged and composed in N2k/Model/HandlersRx.lean "
+                     "(per frame: Rx.rx, then RunMessageHandlers for the message it completes); the engine rebuilds every injected "
+                     "frame byte for byte and the composed model decides completion (single frames, fast packets intact/damaged, "
+                     "lone TP.CM/TP.DT, slot use of a BAM); only the completion of a TP payload (C10 receiver) is an input event"],
     'assumptions': ["handlers are only used while alive and constructed where no live object is (C++ object lifetime rules)",
                     "a handler's PGN is not changed while attached; bus objects outlive their handlers",
                     "HandleMsg / the plain callback do not attach, detach or destroy handlers while a message is dispatched",
@@ -26,14 +25,16 @@ MANIFEST = {
             "handlers whose pNMEA2000 is that bus, each once, sorted by PGN (PGN 0 first), detached handlers have pNext = 0; "
             "RunMessageHandlers calls exactly the handlers that an independent history specification (last attach/detach/destroy "
             "per handler) says are attached to that bus with PGN 0 or the message's PGN, each once, and the plain callback once "
-            "iff set. Correspondence: real tMsgHandler subclasses on two real tNMEA2000 objects (one listen-only, one active "
+            "iff set; END TO END over histories of client operations and received FRAMES (receive model of C02 composed with "
+            "the handler list): event by event a call happens exactly when the receive model completes a message, with exactly "
+            "that message, to exactly the matching handlers, all-PGN handlers first; TP.CM/TP.DT frames never dispatch "
+            "(completion of a TP payload is the only input). Correspondence: real tMsgHandler subclasses on two real tNMEA2000 objects (one listen-only, one active "
             "node) fed CAN frames through ParseMessages under ASan, compared call by call (ids in call order) with the model and "
             "with a multiset reference; exhaustive over all op sequences of bounded length on 2-4 handlers with equal/distinct/zero "
             "PGNs and 2 buses, random long histories on 8 handlers with every PGN class of message; multi-frame fast packets, intact "
             "and damaged, with ParseMessages after every frame: dispatches = messages completely received, each carrying the "
             "PGN and source of the completed message.",
     'design_ref': 'DESIGN.md section 4, C14',
-    'note': "Trusted: Lean kernel; hand transcription validated only by the differential runs; the decision which frame completes a "
-            "message is taken from the real code in the harness and is an input of the model (lone TP.CM/TP.DT frames never "
-            "dispatch, completed TP payloads and system messages do - checked by the oracle, proved only for the call-site model).",
+    'note': "Trusted: Lean kernel; hand transcription validated only by the differential runs; TP payload reassembly (C10) is not composed: its "
+            "completion is an input event of the end-to-end theorem (hence _partial); the harness checks it on the real code.",
 }
